@@ -165,6 +165,12 @@ mut("M28", "C16", "S-C16f's spare traversal stack with read and clear collapsed 
     (P + "segments.py", "        stack: List[Iterator[JSONPathNode]] = (\n            self._spare_stack if self._spare_stack is not None else []\n        )\n        stack.append(iter((node,)))\n        self._spare_stack = None\n",
      "        stack, self._spare_stack = (self._spare_stack if self._spare_stack is not None else []), None\n        stack.append(iter((node,)))\n"),
 ], base_patch="seeded/S-C16f/patch.diff")
+mut("M29", "C18", "the limit is read from the environment's class (an instance attribute set by the user is ignored)", [
+    (P + "segments.py", "                if depth + len(stack) - 1 > self.env.max_recursion_depth:", "                if depth + len(stack) - 1 > type(self.env).max_recursion_depth:"),
+])
+mut("M30", "C17", "the descendant segment reads the mode from the environment's class (an object on which the user switched it on walks in document order: permitted orderings never produced)", [
+    (P + "segments.py", "            self._nondeterministic_visit if self.env.nondeterministic else self._visit", "            self._nondeterministic_visit if type(self.env).nondeterministic else self._visit"),
+])
 
 
 def apply_edits(root: str, edits: List[Tuple[str, str, str]]) -> None:
